@@ -84,6 +84,10 @@ def build_server(ctx, probe, cfg, allresolvers=True, race=False, extra_yml="", m
             # hand-written helper types of the probe; the package name differs per configuration
             open(os.path.join(d, f[:-5]), "w").write(open(os.path.join(probe_dir, f)).read().replace("PKGNAME", pkg))
     ex, extra = CONFIGS[cfg]
+    pe = os.path.join(probe_dir, "extra.yml.tmpl")
+    if os.path.exists(pe):
+        # probe-specific top-level configuration (e.g. a hand-written scalar model of the probe's package)
+        extra = extra + "\n" + open(pe).read().replace("PKGNAME", pkg)
     open(os.path.join(d, "gqlgen.yml"), "w").write(
         BASE_YML.format(exec=ex.format(pkg=pkg), extra=extra + "\n" + extra_yml))
     args = [_gen_bin(ctx), "-dir", d]
